@@ -14,20 +14,43 @@ from .pathcond import _stmt_terminates, decompose
 
 
 class Path:
-    __slots__ = ('stmts', 'atoms', 'end', 'end_node')
+    __slots__ = ('stmts', 'atoms', 'end', 'end_node', 'events')
 
-    def __init__(self, stmts=(), atoms=(), end=None, end_node=None):
+    def __init__(self, stmts=(), atoms=(), end=None, end_node=None, events=()):
         self.stmts = stmts
         self.atoms = atoms
         self.end = end
         self.end_node = end_node
+        self.events = events   # interleaved ('stmt', s) / ('atom', expr, pol)
 
     def extend(self, stmt=None, atoms=()):
+        atoms = tuple(atoms)
+        ev = self.events
+        if stmt is not None:
+            ev = ev + (('stmt', stmt),)
+        ev = ev + tuple(('atom', e, p) for e, p in atoms)
         return Path(self.stmts + ((stmt,) if stmt is not None else ()),
-                    self.atoms + tuple(atoms), self.end, self.end_node)
+                    self.atoms + atoms, self.end, self.end_node, ev)
 
     def finish(self, end, node):
-        return Path(self.stmts, self.atoms, end, node)
+        return Path(self.stmts, self.atoms, end, node, self.events)
+
+    def atoms_after_last_assign(self, name, upto=None):
+        """(value_expr_or_None, [atoms]) : the atoms established after the last
+        assignment to local ``name`` (before statement ``upto``), and that
+        assignment's value."""
+        val, atoms = None, []
+        for ev in self.events:
+            if ev[0] == 'stmt':
+                s = ev[1]
+                if s is upto:
+                    break
+                if isinstance(s, ast.Assign) and any(
+                        isinstance(t, ast.Name) and t.id == name for t in s.targets):
+                    val, atoms = s.value, []
+            else:
+                atoms.append((ev[1], ev[2]))
+        return val, atoms
 
 
 def enumerate_paths(funcnode, max_paths=20000, local_raisers=()):
@@ -95,8 +118,8 @@ def enumerate_paths(funcnode, max_paths=20000, local_raisers=()):
             body_end = block(s.body, [entered])
             mine = pending[mark:]
             del pending[mark:]
-            broke = [Path(q.stmts, q.atoms) for q in mine if q.end == 'break']
-            cont = [Path(q.stmts, q.atoms) for q in mine if q.end == 'continue']
+            broke = [Path(q.stmts, q.atoms, events=q.events) for q in mine if q.end == 'break']
+            cont = [Path(q.stmts, q.atoms, events=q.events) for q in mine if q.end == 'continue']
             # normal loop exit (zero iterations, or after the body/continue)
             normal = [skip] + body_end + cont
             out.extend(block(s.orelse, normal) if s.orelse else normal)
